@@ -57,7 +57,38 @@ def normal_cdf(x, mu=2.9, sigma=1.6):
     return np.array([0.5 * (1.0 + math.erf((xi - mu) / (sigma * math.sqrt(2.0)))) for xi in np.atleast_1d(x)])
 
 
-MODELS = {"lin": lin, "quad": quad, "expo": expo, "expc": expc, "normal": normal_density}
+def linoff(x, a=0.8, b=1.5):
+    return a * x + b + 0.7
+
+
+def quadoff(x, a=0.05, b=0.7, c=1.2):
+    return a * x * x + b * x + c + 0.3
+
+
+def basis3(x, a=1.1, b=0.9, c=0.4):
+    return a + b * x + c * np.sin(x) - 0.5
+
+
+def powerlaw(x, A0=1.3, n=0.8):
+    return A0 * np.power(x, n)
+
+
+def peak(x, A0=3.0, mu=4.0, w=1.5, c=1.0):
+    return A0 * np.exp(-0.5 * ((x - mu) / w) ** 2) + c
+
+
+def sinus(x, A0=1.5, om=0.9, c=3.0):
+    return A0 * np.sin(om * x) + c
+
+
+def logistic(x, L=9.0, k=0.6, x0=4.5):
+    return L / (1.0 + np.exp(-k * (x - x0)))
+
+
+MODELS = {
+    "lin": lin, "quad": quad, "expo": expo, "expc": expc, "normal": normal_density, "linoff": linoff, "quadoff": quadoff, "basis3": basis3,
+    "powerlaw": powerlaw, "peak": peak, "sinus": sinus, "logistic": logistic,
+}
 
 # ---------------------------------------------------------------------------------------
 # uncertainty-source kinds: name -> (axis, form, relative, reference container, payload, rho)
